@@ -12,7 +12,8 @@ import os
 import crosshair.core as _core
 from crosshair.libimpl.builtinslib import ShellMutableMap
 from crosshair.opcode_intercept import frame_op_arg
-from crosshair.simplestructs import ShellMutableSet, SimpleDict
+from crosshair.simplestructs import LinearSet, ShellMutableSet, SimpleDict
+from crosshair.util import CrossHairValue
 from crosshair.tracers import (
     COMPOSITE_TRACER,
     ResumedTracing,
@@ -23,6 +24,7 @@ from crosshair.tracers import (
 
 BUILD_MAP = dis.opmap["BUILD_MAP"]
 BUILD_SET = dis.opmap["BUILD_SET"]
+CONTAINS_OP = dis.opmap["CONTAINS_OP"]
 RESUME = dis.opmap["RESUME"]
 RETURN_OPS = frozenset(dis.opmap[n] for n in ("RETURN_VALUE", "RETURN_CONST", "YIELD_VALUE") if n in dis.opmap)
 _DICT_MERGE = dis.opmap["DICT_MERGE"]
@@ -133,6 +135,20 @@ class BuildSetInterceptor(TracingModule):
         COMPOSITE_TRACER.set_postop_callback(post_op, frame)
 
 
+class FrozensetContainsInterceptor(TracingModule):
+    """`x in {"a", "b"}` compiles to a frozenset constant + CONTAINS_OP; CrossHair de-optimises set and
+    dict containers but not frozenset, so a symbolic `x` would be hashed (= realised)."""
+    opcodes_wanted = frozenset([CONTAINS_OP])
+
+    def trace_op(self, frame, codeobj, codenum):
+        item = frame_stack_read(frame, -2)
+        if not isinstance(item, CrossHairValue):
+            return
+        container = frame_stack_read(frame, -1)
+        if type(container) is frozenset:
+            frame_stack_write(frame, -1, ShellMutableSet(LinearSet(container)))
+
+
 class EncodedRecorder(TracingModule):
     opcodes_wanted = RETURN_OPS
 
@@ -145,7 +161,7 @@ class EncodedRecorder(TracingModule):
 
 
 def install(record=True):
-    mods = [BuildMapInterceptor(), BuildSetInterceptor()]
+    mods = [BuildMapInterceptor(), BuildSetInterceptor(), FrozensetContainsInterceptor()]
     if record:
         mods.append(EncodedRecorder())
     for m in mods:
